@@ -234,9 +234,6 @@ func init() {
 			at := in.newAtom("json", in.freshName("doc"))
 			return tuple(Value{K: KSlice, R: &SliceV{S: []Value{{K: KOpaque, R: &OpaqueBytes{A: at, Tag: "json"}}}}}, nilErr), true
 		},
-		"context.Background": func(in *Interp, fr *Frame, a []Value) (Value, bool) {
-			return Value{K: KIface, R: &IfaceV{T: errType, V: Value{K: KOpaque, R: "ctx"}}}, true
-		},
 		"strconv.Itoa": func(in *Interp, fr *Frame, a []Value) (Value, bool) {
 			if a[0].R != nil {
 				unsupported("Itoa of symbolic")
